@@ -12,7 +12,7 @@
          ff      filters of the -f file, eac  filters of the --eac expressions (both sequences of filter records)
          sort    --sort            style  "a" | "x" | "s" | "none"          ofile  -o given
 
-   A filter record is [kind, en, ecu, apid, ctid]: kind "pos" | "neg" | "marker", en = enabled, "" = criterion absent.
+   A filter record is [kind, en, ecu, apid, ctid, rx]: kind "pos" | "neg" | "marker", en = enabled, "" = criterion absent.
    Only literal ECU / APID / CTID criteria are needed here (the full criterion language is C11's business);
    the set semantics is C12's Keep: positive OR (no enabled positive = pass), negative veto, markers/disabled ignored.
 
@@ -31,10 +31,26 @@ Rev(s) == [i \in 1..Len(s) |-> s[Len(s) + 1 - i]]
 
 -----------------------------------------------------------------------------
 \* filters (literal ids only) and filter sets
+\* A criterion is a literal id or - for --eac parts containing a regex character - a regular expression.  The code compiles
+\* it with regex::bytes::Regex::new and tests is_match on the 4 id bytes: NOT anchored.  The forms used (w, v = character
+\* sequences; the message carries its ids also as character sequences ecuc / apidc / ctidc, without the zero padding):
+\*   alt      "w|v"      the id contains w or contains v            prefix   "w.*"   the id contains w
+\*   aprefix  "^w"       the id starts with w                       class    "w[v]"  the id contains w followed by a character of v
+\* A literal part selects exactly the id equal to it.
+NoRx == [t |-> "none", w |-> <<>>, v |-> <<>>, s |-> ""]
+Contains(cs, w) == \E i \in 1..(Len(cs) - Len(w) + 1) : SubSeq(cs, i, i + Len(w) - 1) = w
+StartsWith(cs, w) == Len(w) <= Len(cs) /\ SubSeq(cs, 1, Len(w)) = w
+RxMatch(r, cs) == CASE r.t = "alt" -> Contains(cs, r.w) \/ Contains(cs, r.v)
+                    [] r.t = "prefix" -> Contains(cs, r.w)
+                    [] r.t = "aprefix" -> StartsWith(cs, r.w)
+                    [] r.t = "class" -> \E k \in DOMAIN r.v : Contains(cs, Append(r.w, r.v[k]))
+                    [] OTHER -> FALSE
+Crit(lit, r, present, id, cs) == IF r.t = "none" THEN lit = NoId \/ (present /\ lit = id)
+                                 ELSE present /\ RxMatch(r, cs)
 Match(f, m) == /\ f.en
-               /\ (f.ecu = NoId \/ f.ecu = m.ecu)
-               /\ (f.apid = NoId \/ (m.ext /\ f.apid = m.apid))
-               /\ (f.ctid = NoId \/ (m.ext /\ f.ctid = m.ctid))
+               /\ Crit(f.ecu, f.rx.ecu, TRUE, m.ecu, m.ecuc)
+               /\ Crit(f.apid, f.rx.apid, m.ext, m.apid, m.apidc)
+               /\ Crit(f.ctid, f.rx.ctid, m.ext, m.ctid, m.ctidc)
 Pos(F) == {k \in DOMAIN F : F[k].en /\ F[k].kind = "pos"}
 Neg(F) == {k \in DOMAIN F : F[k].en /\ F[k].kind = "neg"}
 Keep(F, m) == /\ (Pos(F) = {} \/ (\E k \in Pos(F) : Match(F[k], m)))
